@@ -93,6 +93,7 @@ pub fn judge_real(
     inv: &RInv,
     out: &ROut,
     w: &World,
+    uncertain_before: &BTreeSet<String>,
 ) -> bool {
     let prop: &str = &ctx.prop;
     let mk = || J::obj().with("case", J::i(case)).with("project_at_invocation", proj_before.to_json()).with("history", J::Arr(hist.to_vec())).with("invocation", inv.to_json()).with("trace", out.trace_json());
@@ -210,7 +211,16 @@ pub fn judge_real(
     let interrupted = pred.p1.interrupted || pred.p2.as_ref().map(|(_, p)| p.interrupted).unwrap_or(false);
     let nfail_pred = pred.p1.failed.len() + pred.p2.as_ref().map(|(_, p)| p.failed.len()).unwrap_or(0);
     let exact = exp_err.is_none() && !interrupted && (nfail_pred == 0 || inv.k.map(|k| nfail_pred < k).unwrap_or(true));
+    // a step whose last completion may or may not have been recorded (see World::uncertain)
+    // makes this invocation's run set unpredictable from outside
+    let touches_uncertain = started_set.iter().chain(exp.iter()).any(|s| uncertain_before.contains(s));
+    if touches_uncertain {
+        rep.count("runset_checks_skipped_orphan_completion", 1);
+    }
     if exp_err.is_none() {
+        if touches_uncertain {
+            // nothing to compare
+        } else {
         let over: Vec<&String> = started_set.difference(&exp).collect();
         let under: Vec<&String> = exp.difference(&started_set).collect();
         if !over.is_empty() && matches!(prop, "C03" | "C09" | "C17" | "C18" | "C13") {
@@ -222,6 +232,7 @@ pub fn judge_real(
         if exact && nfail_pred == 0 && exit != Some(0) && matches!(prop, "C02" | "C03" | "C05" | "C06" | "C09" | "C17" | "C18") {
             rep.violation("unexpected-failure", &format!("no command was planned to fail but exit {:?}: {}", exit, String::from_utf8_lossy(&out.stdout).chars().rev().take(300).collect::<String>().chars().rev().collect::<String>()), mk());
             return false;
+        }
         }
     } else if exit == Some(0) && matches!(prop, "C05" | "C18" | "C12") {
         rep.violation("expected-error-missing", &format!("model expects error {:?} but exit 0", exp_err), mk());
@@ -368,6 +379,7 @@ fn general_case(ctx: &Ctx, env: &RealEnv, dir: &std::path::Path, case: u64, seed
         }
         scan(&mut w);
         let proj_before = w.proj.clone();
+        let unc = w.uncertain.clone();
         let pred = predict_inv(&w, &inv.as_sim_inv());
         if ctx.verbose {
             eprintln!("PRED why1={:?} why2={:?} records={:#?}", pred.p1.why, pred.p2.as_ref().map(|p| p.1.why.clone()), w.st.records);
@@ -385,7 +397,7 @@ fn general_case(ctx: &Ctx, env: &RealEnv, dir: &std::path::Path, case: u64, seed
                 rep.violation("log-malformed", &e, J::obj().with("case", J::i(case)).with("history", J::Arr(hist.clone())));
             }
         }
-        let go = judge_real(ctx, rep, case, &hist, &proj_before, &pred, &inv, &out, &w);
+        let go = judge_real(ctx, rep, case, &hist, &proj_before, &pred, &inv, &out, &w, &unc);
         let started = out.started();
         let ran: Vec<usize> = started.iter().filter_map(|s| proj_before.step_index(s)).collect();
         let rel = Rel::new(&proj_before);
